@@ -146,6 +146,7 @@ func (fs *FileStorage) GetMessages(offset uint64) ([]storage.Message, error) {
 			msgs = append(msgs, data)
 		}
 	}
+	simYield(fs, "get.afterScan")
 	if scanner.Err() != nil {
 		return nil, fmt.Errorf("failed to read a data file: %w", scanner.Err())
 	}
